@@ -143,6 +143,7 @@ theorem verifyAudience_isNone (aud : Go.Any) (cid : Go.Str) :
   | num x => simp [Code.verifyAudience, absJ, audOK]
   | bool b => simp [Code.verifyAudience, absJ, audOK]
   | obj kv => simp [Code.verifyAudience, absJ, audOK]
+  | int i => simp [Code.verifyAudience, absJ, audOK]
 
 /-! ### the allow-list literal of `JWT.Verify` -/
 theorem boolMapGet_allTrue (ks : List Go.Str) (a : Go.Str) :
